@@ -1,0 +1,26 @@
+// SPDX-FileCopyrightText: 2022 Kalle Fagerberg
+//
+// SPDX-License-Identifier: MIT
+
+//go:build !verif
+
+package sync2
+
+// Verification hooks (see verif_hooks_on.go). Without the "verif" build tag
+// they are empty and are inlined away.
+
+type verifTryLocker = interface {
+	TryLock() bool
+	Unlock()
+}
+
+type verifTryRLocker = interface {
+	TryRLock() bool
+	RUnlock()
+}
+
+func verifYield(string) {}
+
+func verifLock(string, verifTryLocker) {}
+
+func verifRLock(string, verifTryRLocker) {}
